@@ -140,6 +140,7 @@ func segString(segs []keySeg) string {
 }
 
 func checkC16(P *core.Program, R *core.Report) {
+	defer checkOracleMsgFieldsApplied(P, R)
 	R.Explanation = "Key schema (R8): the oracle price key builders are abstractly interpreted into segment sequences (Const / Var(param) / Fixed(8) / LenPrefixed); every (reverse) prefix scan in the oracle keeper whose prefix ends in an unterminated variable segment must filter — each `found` return inside the scan loop is dominated by equality between the decoded record's field and every variable argument of the prefix (the repair of F-16); SetPrice/GetPrice/RemovePrice share PriceKey whose last segment is the fixed-width big-endian timestamp, so reverse iteration yields the newest entry of one (asset, source). " +
 		"Source preference: GetAssetPrice looks up ELYS, then BAND, then any source, each later lookup only under ¬found of the earlier. No info / no price ⇒ zero: GetAssetPriceFromDenom returns the zero constant on both ¬found edges and prices info.Display of that denom. " +
 		"Expiry: EndBlock iterates GetAllPrice and reaches RemovePrice under Timestamp + PriceExpiryTime < block time and under BlockHeight + LifeTimeInBlocks < block height. " +
@@ -583,6 +584,31 @@ func checkExpiry(P *core.Program, R *core.Report) {
 		byTime, byHeight = false, false
 		detail = "no sweep loop around RemovePrice found (anchor changed)"
 	}
+	// what is removed is the swept record itself: RemovePrice(asset, source, timestamp) gets
+	// the Asset, Source and Timestamp fields of one and the same record (the key schema)
+	for _, c := range core.Calls(fn) {
+		if !isRemove(c) {
+			continue
+		}
+		a := c.Common().Args
+		want := []string{".Asset", ".Source", ".Timestamp"}
+		okKey := len(a) >= 3
+		var root ssa.Value
+		for i := 0; okKey && i < 3; i++ {
+			os := ff.Origins(a[len(a)-3+i])
+			if len(os) != 1 || !strings.HasSuffix(os[0].Path, want[i]) {
+				okKey = false
+				break
+			}
+			if root == nil {
+				root = os[0].Val
+			} else if root != os[0].Val {
+				okKey = false
+			}
+		}
+		R.Add("C16-expiry", key, "RemovePrice(record.Asset, record.Source, record.Timestamp)", P.Pos(P.InstrPos(c)), okKey,
+			"the key that is deleted is built from the swept record's own asset, source and timestamp")
+	}
 	R.Add("C16-expiry", key, "sweep over all prices", P.Pos(fn.Pos()), iter, "EndBlock visits every stored price")
 	R.Add("C16-expiry", key, "Timestamp + PriceExpiryTime < now ⇒ remove", P.Pos(fn.Pos()), byTime, "time-based expiry removes the price. "+detail)
 	R.Add("C16-expiry", key, "BlockHeight + LifeTimeInBlocks < height ⇒ remove", P.Pos(fn.Pos()), byHeight, "block-lifetime expiry removes the price. "+detail)
@@ -796,4 +822,81 @@ func constStringSymbols(ff *core.FuncFacts, v ssa.Value) ([]string, bool) {
 		out = append(out, symbolOf(iff, e))
 	}
 	return out, len(out) > 0
+}
+
+// checkOracleMsgFieldsApplied: a handler that ignores a field of its message silently keeps
+// the old state for it (SetPriceFeeder that never reads IsActive cannot deactivate a feeder).
+// For every oracle Msg handler each field of the message must be read — in the handler, or
+// the message is handed on whole to a callee.  Fields named in the table are not state.
+func checkOracleMsgFieldsApplied(P *core.Program, R *core.Report) {
+	n := 0
+	for _, r := range msgRoots(P, R) {
+		if !strings.HasPrefix(r.Key, "x/oracle/keeper.") {
+			continue
+		}
+		fn := r.Fn
+		if fn == nil || r.Msg == nil {
+			continue
+		}
+		msg := r.Msg
+		pt, ok := msg.Type().Underlying().(*types.Pointer)
+		if !ok {
+			continue
+		}
+		st, ok := pt.Elem().Underlying().(*types.Struct)
+		if !ok {
+			continue
+		}
+		read := map[string]bool{}
+		whole := false
+		var visit func(v ssa.Value, depth int)
+		seen := map[ssa.Value]bool{}
+		visit = func(v ssa.Value, depth int) {
+			if seen[v] || depth > 6 || v.Referrers() == nil {
+				return
+			}
+			seen[v] = true
+			for _, ref := range *v.Referrers() {
+				switch x := ref.(type) {
+				case *ssa.FieldAddr:
+					read[core.FieldName(x.X.Type(), x.Field)] = true
+				case *ssa.Field:
+					read[core.FieldName(x.X.Type(), x.Field)] = true
+				case *ssa.UnOp:
+					visit(x, depth+1) // *msg copied to a value
+				case *ssa.Store:
+					if x.Val == v {
+						if a, ok := x.Addr.(*ssa.Alloc); ok {
+							visit(a, depth+1)
+						} else {
+							whole = true
+						}
+					}
+				case *ssa.Phi, *ssa.MakeInterface, *ssa.ChangeType:
+					visit(x.(ssa.Value), depth+1)
+				case ssa.CallInstruction:
+					if f, ok := P.PBGetterField(x.Common()); ok {
+						read[f] = true
+					} else if len(x.Common().Args) > 0 && x.Common().Args[0] == v && x.Common().StaticCallee() != nil && x.Common().StaticCallee().Name() == "ValidateBasic" {
+						// validation reads fields but applies nothing
+					} else {
+						whole = true // handed on: the callee may read anything
+					}
+				}
+			}
+		}
+		visit(msg, 0)
+		for i := 0; i < st.NumFields(); i++ {
+			f := st.Field(i).Name()
+			if !st.Field(i).Exported() || strings.HasPrefix(f, "XXX_") || f == r.Signer {
+				continue // whether and how the signer is used is decided by C17
+			}
+			n++
+			R.Add("C16-msg-field", r.Key, "reads msg."+f, P.Pos(fn.Pos()), whole || read[f],
+				"every field of the message is read by its handler (an ignored field means the handler cannot change what the field describes)")
+		}
+	}
+	if n == 0 {
+		R.Add("C16-msg-field", "x/oracle/keeper", "handlers", "-", false, "no oracle message handler found (anchor changed)")
+	}
 }
